@@ -20,6 +20,8 @@ import (
 //   mc.jump <key> <n>                                        -> bucket            (jumpHash via hook)
 //   mc.pick <listed> <perm> <keys>                           -> <single> <batch>  (SetServers, PickServer per key, PickServerForKeys)
 //   mc.two  <listedA> <permA> <listedB> <permB> <keys>       -> <singleA> <singleB>
+//   mc.hist <steps> <keys>                                   -> <answer>{|<answer>}   one selector through a history:
+//     step = S<listed>~<perm> (SetServers, all names resolve -> ok) | F<listed> (a name does not resolve -> err) | P (lookups)
 //     listed = hexsrv{,hexsrv} | -     servers as passed to SetServers
 //     perm   = i{,i} | -               what natsort.Sort does to the lexically sorted list: final[k] = lexsorted[perm[k]]
 //                                      (third-party input, re-checked here against the selector's internal order)
@@ -284,6 +286,9 @@ func execC49(c *hlib.Ctx, tok []string) string {
 		}
 		return hlib.Join(single, ",") + " " + batch
 
+	case "mc.hist":
+		return c49ExecHist(c, tok)
+
 	case "mc.two":
 		if len(tok) != 6 {
 			return "bad-op"
@@ -370,6 +375,157 @@ func execC49(c *hlib.Ctx, tok []string) string {
 		return hlib.Join(a, ",") + " " + hlib.Join(b, ",")
 	}
 	return "bad-op"
+}
+
+// c49Resolves: does parseStaticAddr accept the name without DNS (literal IP:port, unix path)?
+func c49Resolves(s string) bool {
+	if strings.Contains(s, "/") {
+		return true
+	}
+	host, port, err := net.SplitHostPort(s)
+	if err != nil || net.ParseIP(host) == nil {
+		return false
+	}
+	_, err = strconv.ParseUint(port, 10, 16)
+	return err == nil
+}
+
+func c49Batch(sel *cacheutil.MemcachedJumpHashSelector, names map[string]string, keys []c49Key) string {
+	ks := make([]string, len(keys))
+	for i, k := range keys {
+		ks[i] = k.key
+	}
+	m, err := sel.PickServerForKeys(ks)
+	if err != nil {
+		return "err"
+	}
+	var entries, srvs []string
+	for addr := range m {
+		srvs = append(srvs, addr)
+	}
+	sort.Slice(srvs, func(i, j int) bool { return hlib.HexS(names[srvs[i]]) < hlib.HexS(names[srvs[j]]) })
+	for _, addr := range srvs {
+		hk := make([]string, len(m[addr]))
+		for i, k := range m[addr] {
+			hk[i] = hlib.HexS(k)
+		}
+		entries = append(entries, hlib.HexS(names[addr])+"="+hlib.Join(hk, "+"))
+	}
+	return hlib.Join(entries, ";")
+}
+
+// c49ExecHist: a history of SetServers calls (some failing) and lookups on ONE selector.
+//   mc.hist <steps> <keys>     step = S<listed>~<perm> | F<listed> | P
+// Oracle: a failing SetServers returns an error, a good one does not; every lookup answers what a
+// FRESH selector given the last successfully set list answers (class torn-server-list).
+func c49ExecHist(c *hlib.Ctx, tok []string) string {
+	if len(tok) != 3 {
+		return "bad-op"
+	}
+	keys, ok := c49ParseKeys(tok[2])
+	if !ok {
+		return "bad-op"
+	}
+	sel := &cacheutil.MemcachedJumpHashSelector{}
+	names := map[string]string{}
+	var lastGood []string
+	var answers []string
+	addNames := func(listed []string) bool {
+		for _, s := range listed {
+			if !c49Resolves(s) {
+				continue
+			}
+			var a net.Addr
+			var err error
+			if strings.Contains(s, "/") {
+				a, err = net.ResolveUnixAddr("unix", s)
+			} else {
+				a, err = net.ResolveTCPAddr("tcp", s)
+			}
+			if err != nil {
+				return false
+			}
+			if prev, ok := names[a.String()]; ok && prev != s {
+				return false
+			}
+			names[a.String()] = s
+		}
+		return true
+	}
+	for _, st := range strings.Split(tok[1], "|") {
+		switch {
+		case st == "P":
+			single := c49Single(sel, names, keys)
+			batch := c49Batch(sel, names, keys)
+			answers = append(answers, hlib.Join(single, ",")+"/"+batch)
+			// oracle: a fresh selector with the last successfully set list
+			fresh := &cacheutil.MemcachedJumpHashSelector{}
+			if err := fresh.SetServers(lastGood...); err != nil {
+				return "bad-op"
+			}
+			want := c49Single(fresh, names, keys)
+			moved := 0
+			for i := range want {
+				if want[i] != single[i] {
+					moved++
+				}
+			}
+			if moved > 0 || batch != c49Batch(fresh, names, keys) {
+				c.Violation("torn-server-list", fmt.Sprintf("%d of %d keys are placed differently from a fresh selector given the last successfully set server list %q", moved, len(keys), lastGood))
+			}
+		case strings.HasPrefix(st, "F"):
+			listed, ok := c49ParseServers(st[1:])
+			bad := 0
+			for _, s := range listed {
+				if !c49Resolves(s) {
+					bad++
+				}
+			}
+			if !ok || bad == 0 || !addNames(listed) {
+				return "bad-op"
+			}
+			if err := sel.SetServers(listed...); err == nil {
+				c.Violation("setservers-error-swallowed", "SetServers succeeds although a name does not resolve")
+				answers = append(answers, "ok")
+			} else {
+				answers = append(answers, "err")
+			}
+		case strings.HasPrefix(st, "S"):
+			p := strings.Split(st[1:], "~")
+			if len(p) != 2 {
+				return "bad-op"
+			}
+			listed, ok := c49ParseServers(p[0])
+			if !ok {
+				return "bad-op"
+			}
+			for _, s := range listed {
+				if !c49Resolves(s) {
+					return "bad-op"
+				}
+			}
+			sorted, ok2 := c49ApplyPerm(listed, p[1])
+			if !ok2 || !addNames(listed) {
+				return "bad-op"
+			}
+			if err := sel.SetServers(listed...); err != nil {
+				c.Violation("setservers-fails", "SetServers fails on resolvable names: "+err.Error())
+				answers = append(answers, "err")
+				break
+			}
+			// the internal order is the one the op line claims
+			var internal []string
+			_ = sel.Each(func(a net.Addr) error { internal = append(internal, names[a.String()]); return nil })
+			if strings.Join(internal, "\x00") != strings.Join(sorted, "\x00") {
+				return "bad-op"
+			}
+			lastGood = listed
+			answers = append(answers, "ok")
+		default:
+			return "bad-op"
+		}
+	}
+	return strings.Join(answers, "|")
 }
 
 func contains(xs []string, x string) bool {
@@ -499,6 +655,69 @@ func genC49(c *hlib.Ctx) {
 			c.Count("perm:natsort-ties")
 		}
 		c.Do("mc.two "+c49Hex(la)+" "+c49Perm(la)+" "+c49Hex(lb)+" "+c49Perm(lb)+" "+c49Keys(c, r.Range(10, 40)), ns > 1)
+	}
+	// ---- histories of SetServers calls on one selector, some of them failing on an unresolvable name
+	n = c.N(300, 15000)
+	for i := 0; i < n; i++ {
+		ns := r.Range(2, 10)
+		pool := c49GenServers(c, ns+4, false)
+		cur := append([]string(nil), pool[:ns]...)
+		steps := []string{"S" + c49Hex(cur) + "~" + c49Perm(cur), "P"}
+		for k := r.Range(2, 6); k > 0; k-- {
+			// the next list: plus / minus / replacing servers, listed in a fresh order
+			next := append([]string(nil), cur...)
+			switch r.Intn(4) {
+			case 0:
+				next = append(next, pool[ns+r.Intn(4)])
+			case 1:
+				if len(next) > 2 {
+					j := r.Intn(len(next))
+					next = append(next[:j], next[j+1:]...)
+				}
+			case 2:
+				next[r.Intn(len(next))] = pool[ns+r.Intn(4)]
+			}
+			seen := map[string]bool{}
+			var uniq []string
+			for _, s := range next {
+				if !seen[s] {
+					seen[s] = true
+					uniq = append(uniq, s)
+				}
+			}
+			next = uniq
+			pp := r.Perm(len(next))
+			sh := make([]string, len(next))
+			for i, j := range pp {
+				sh[i] = next[j]
+			}
+			next = sh
+			if r.Chance(1, 2) {
+				// a name that does not resolve, sorting first / in the middle / last
+				bad := r.Pick([]string{"0.0.0.0", "10.0.0.15:notaport", "99.9.9.9", "[::1", "~last:port:extra", "10.0.0.3"})
+				c.Count("hist:failing-setservers")
+				srt := c49Sorted(append(append([]string(nil), next...), bad))
+				switch {
+				case srt[0] == bad:
+					c.Count("hist:bad-name-sorts-first")
+				case srt[len(srt)-1] == bad:
+					c.Count("hist:bad-name-sorts-last")
+				default:
+					c.Count("hist:bad-name-sorts-inside")
+				}
+				at := r.Intn(len(next) + 1)
+				withBad := append(append(append([]string(nil), next[:at]...), bad), next[at:]...)
+				steps = append(steps, "F"+c49Hex(withBad), "P")
+				if r.Chance(1, 3) {
+					steps = append(steps, "P")
+				}
+			} else {
+				c.Count("hist:good-setservers")
+				steps = append(steps, "S"+c49Hex(next)+"~"+c49Perm(next), "P")
+				cur = next
+			}
+		}
+		c.Do("mc.hist "+strings.Join(steps, "|")+" "+c49Keys(c, r.Range(10, 40)), true)
 	}
 	// ---- adding a server
 	n = c.N(600, 30000)
